@@ -908,6 +908,14 @@ func (c *FnCtx) rangeOp(fr *Frame, st *State, x *ssa.Range) {
 		it.len0 = c.mapLen(st, x.X.Type(), m)
 		it.count = c.newCell("rangecount", types.Typ[types.Int])
 		c.setCell(st, it.count, c.eng.ts.Int(0))
+		if fr.isTop && c.fc != nil && hasProp(c.fc.Props, "C16") && c.noObl == 0 {
+			ok, why := c.eng.isCollectThenSort(fr.fn, x)
+			if ok {
+				c.addObl(st, "order", fmt.Sprintf("#%d collect-then-sort", c.kindOrd["order"]), c.eng.ts.Bool(true), x.Pos(), "map range only collects into a slice that is sorted afterwards")
+			} else {
+				c.addObl(st, "order", fmt.Sprintf("#%d single entry (%s)", c.kindOrd["order"], why), c.eng.ts.Le(it.len0, c.eng.ts.Int(1)), x.Pos(), "the result must not depend on map iteration order: range over a map of more than one entry that is not a collect-then-sort loop")
+			}
+		}
 		it.visited = c.newCell("rangevisited", nil)
 		it.visited.ghostSort = ArrOf(mh.ks, SBool)
 		c.setCell(st, it.visited, c.eng.ts.ConstArr(ArrOf(mh.ks, SBool), c.eng.ts.Bool(false)))
@@ -991,4 +999,13 @@ func (c *FnCtx) nextOp(fr *Frame, st *State, x *ssa.Next) {
 type nextInfo struct {
 	iter         *IterVal
 	ok, key, val *Term
+}
+
+func hasProp(ps []string, p string) bool {
+	for _, q := range ps {
+		if q == p {
+			return true
+		}
+	}
+	return false
 }
